@@ -7,7 +7,7 @@ import Glom.Spec.C02
 namespace Glom.C02
 open Glom
 
-variable {V : Type}
+variable {V S : Type}
 
 /-! ### induction principle for the nested expression type -/
 
@@ -69,37 +69,37 @@ theorem flat_length (root : Obj V) (cells : List (String × Obj V)) :
   simp [flatOfCells_length]; omega
 
 /-- the loop of `_t_eval`, read structurally: the steps one after the other,
-    step number `k` applied to the current value -/
-def stepsEval (F : Facts) (prim : Prim V) (target : V) (f : Obj V → Except Err (AV V)) :
-    List (String × Obj V) → Nat → V → Except Err V
-  | [], _, cur => .ok cur
-  | (c, a) :: rest, k, cur =>
-    match f a with
-    | .error e => .error e
-    | .ok av =>
-      match applyBranch F prim target k c cur av with
-      | .ok v => stepsEval F prim target f rest (k + 1) v
-      | .error e => .error e
+    step number `k` applied to the current value in the current state -/
+def stepsEval (F : Facts) (prim : Prim V S) (target : V) (f : Obj V → Run S Err (AV V)) :
+    List (String × Obj V) → Nat → S → V → Except Err V × S
+  | [], _, s, cur => (.ok cur, s)
+  | (c, a) :: rest, k, s, cur =>
+    match f a s with
+    | (.error e, s1) => (.error e, s1)
+    | (.ok av, s1) =>
+      match applyBranch F prim target k c s1 cur av with
+      | (.ok v, s2) => stepsEval F prim target f rest (k + 1) s2 v
+      | (.error e, s2) => (.error e, s2)
 
 /-- the loop on the flat tuple, started at the op slot of step `pre.length`, is
     the structural evaluation of the remaining steps (`i // 2` is the step number) -/
-theorem tLoop_eq_steps (F : Facts) (prim : Prim V) (target : V) (f : Obj V → Except Err (AV V))
+theorem tLoop_eq_steps (F : Facts) (prim : Prim V S) (target : V) (f : Obj V → Run S Err (AV V))
     (root : Obj V) (rest : List (String × Obj V)) :
-    ∀ (pre : List (String × Obj V)) (cur : V),
+    ∀ (pre : List (String × Obj V)) (s : S) (cur : V),
     tLoop F prim (root :: flatOfCells (pre ++ rest)) ((root :: flatOfCells (pre ++ rest)).map f)
-        target (1 + 2 * pre.length) cur =
-      stepsEval F prim target f rest pre.length cur := by
+        target (1 + 2 * pre.length) s cur =
+      stepsEval F prim target f rest pre.length s cur := by
   induction rest with
   | nil =>
-    intro pre cur
+    intro pre s cur
     rw [tLoop]
     simp only [List.append_nil]
     have : ¬ (1 + 2 * pre.length < (root :: flatOfCells pre).length) := by
       rw [flat_length]; simp
     simp only [this, dite_false, stepsEval]
-  | cons s rest ih =>
-    obtain ⟨c, a⟩ := s
-    intro pre cur
+  | cons st rest ih =>
+    obtain ⟨c, a⟩ := st
+    intro pre s cur
     have hlt : 1 + 2 * pre.length < (root :: flatOfCells (pre ++ (c, a) :: rest)).length := by
       rw [flat_length]; simp
     rw [tLoop]
@@ -107,27 +107,32 @@ theorem tLoop_eq_steps (F : Facts) (prim : Prim V) (target : V) (f : Obj V → E
     have hdiv : (1 + 2 * pre.length) / 2 = pre.length := by omega
     rw [hdiv]
     simp only [stepsEval]
-    cases hf : f a with
-    | error e => rfl
-    | ok av =>
-      simp only
-      cases hb : applyBranch F prim target pre.length c cur av with
+    cases hf : f a s with
+    | mk r s1 =>
+      cases r with
       | error e => rfl
-      | ok v =>
+      | ok av =>
         simp only
-        have := ih (pre ++ [(c, a)]) v
-        simp only [List.append_assoc, List.singleton_append, List.length_append,
-          List.length_singleton] at this
-        rw [show 1 + 2 * pre.length + 2 = 1 + 2 * (pre.length + 1) by omega, this]
+        cases hb : applyBranch F prim target pre.length c s1 cur av with
+        | mk r2 s2 =>
+          cases r2 with
+          | error e => rfl
+          | ok v =>
+            simp only
+            have := ih (pre ++ [(c, a)]) s2 v
+            simp only [List.append_assoc, List.singleton_append, List.length_append,
+              List.length_singleton] at this
+            rw [show 1 + 2 * pre.length + 2 = 1 + 2 * (pre.length + 1) by omega, this]
 
 /-! ### a recorded op char is dispatched to the operation its dunder denotes -/
 
-/-- how `_t_eval` reports the outcome of applying operation number `k` directly -/
-def stepOut (F : Facts) (k : Nat) (kind : Kind) (r : Option (Except PyExc V)) : Except Err V :=
+/-- how `_t_eval` reports the outcome of applying operation number `k` directly in state `s` -/
+def stepOut (F : Facts) (k : Nat) (kind : Kind) (s : S) (r : Option (Except PyExc V × S)) :
+    Except Err V × S :=
   match r with
-  | none => .error .unsupported
-  | some (.ok v) => .ok v
-  | some (.error e) => .error (errOf F (.opFail k kind e))
+  | none => (.error .unsupported, s)
+  | some (.ok v, s1) => (.ok v, s1)
+  | some (.error e, s1) => (.error (errOf F (.opFail k kind e)), s1)
 
 theorem recorded_wf {F : Facts} (hwf : WF F = true) {d c : String} (hc : charOf F d = some c) :
     ∃ kind ks caught, meaning d = some kind ∧ dispatchOf F c = some (ks, caught) ∧
@@ -149,27 +154,25 @@ theorem recorded_wf {F : Facts} (hwf : WF F = true) {d c : String} (hc : charOf 
     exact ⟨kind, ks, caught, hm, hdsp, this.1, this.2⟩
   · contradiction
 
-theorem applyBranch_eq (F : Facts) (prim : Prim V) (hplain : ∀ t v, prim.reval t v = v)
-    (target : V) (k : Nat) (c : String) (cur : V) (av : AV V) (kind : Kind) (ks : String)
+/-- `hplain`: the second `arg_val` pass of `Call.glomit` only rebuilds plain
+    containers (no glom spec objects inside the target's data) -/
+def Plain (prim : Prim V S) : Prop :=
+  ∀ s t f args kwargs, prim.revalCall s t f args kwargs = prim.passCall s f args kwargs
+
+theorem applyBranch_eq (F : Facts) (prim : Prim V S) (hplain : Plain prim)
+    (target : V) (k : Nat) (c : String) (s : S) (cur : V) (av : AV V) (kind : Kind) (ks : String)
     (caught : List String) (hd : dispatchOf F c = some (ks, caught))
     (hk : Kind.ofString ks = kind) (hc : caughtOfKind F kind = caught) :
-    applyBranch F prim target k c cur av = stepOut F k kind (pyApply prim kind cur av) := by
-  have hre : ∀ (l : List V), l.map (prim.reval target) = l := by
-    intro l; induction l with
-    | nil => rfl
-    | cons a r ih => simp [hplain, ih]
-  have hre2 : ∀ (l : List (String × V)), l.map (fun p => (p.1, prim.reval target p.2)) = l := by
-    intro l; induction l with
-    | nil => rfl
-    | cons a r ih => simp [hplain]
-  have hg : ∀ (r : Except PyExc V), guarded F caught k r = stepOut F k kind (some r) := by
+    applyBranch F prim target k c s cur av = stepOut F k kind s (pyApply prim kind s cur av) := by
+  have hg : ∀ (r : Except PyExc V × S), guarded F caught k r = stepOut F k kind s (some r) := by
     intro r
+    obtain ⟨r, s1⟩ := r
     cases r with
     | ok v => rfl
-    | error e => simp only [guarded, stepOut, errOf, hc]; split <;> rfl
+    | error e => simp only [guarded, guardE, stepOut, errOf, hc]; split <;> rfl
   unfold applyBranch
   simp only [hd, hk]
-  cases kind <;> cases av <;> simp only [pyApply, hg, hre, hre2, hplain target cur] <;> rfl
+  cases kind <;> cases av <;> simp only [pyApply, hg, hplain s target] <;> rfl
 
 /-! ### lists of optional / exceptional results -/
 
@@ -207,33 +210,43 @@ theorem map_eq_of_forall2 {α β γ} {R : α → β → Prop} {g : β → γ} {h
     simp only [List.map_cons]
     rw [hgh _ (by simp) _ hxy, ih (fun x hx y hxy' => hgh x (by simp [hx]) y hxy')]
 
-theorem seqAll_map_outOf (F : Facts) {α} (rs : List (Except RefErr α)) :
-    seqAll (rs.map (outOf F)) = outOf F (seqAll rs) := by
-  induction rs with
+theorem seqRun_map_outRun (F : Facts) {α} (rs : List (Run S RefErr α)) :
+    seqRun (rs.map (outRun F)) = outRun F (seqRun rs) := by
+  funext s
+  induction rs generalizing s with
   | nil => rfl
   | cons r rest ih =>
-    cases r with
+    simp only [List.map_cons, seqRun, outRun, outS]
+    cases hr : r s with
+    | mk x s1 =>
+      cases x with
+      | error e => rfl
+      | ok a =>
+        simp only [outOf]
+        rw [ih s1]
+        simp only [outRun, outS]
+        cases hq : seqRun rest s1 with
+        | mk y s2 => cases y <;> rfl
+
+theorem valOfRun_outRun (F : Facts) (f : Run S RefErr (AV V)) :
+    valOfRun (outRun F f) = outRun F (refValRun f) := by
+  funext s
+  simp only [valOfRun, outRun, outS, refValRun]
+  cases hr : f s with
+  | mk x s1 =>
+    cases x with
     | error e => rfl
-    | ok a =>
-      simp only [List.map_cons, outOf, seqAll]
-      rw [ih]
-      cases seqAll rest <;> rfl
+    | ok av => cases av <;> rfl
 
-theorem asVal_outOf (F : Facts) (r : Except RefErr (AV V)) :
-    valOfRes (outOf F r) = outOf F (refVal1 r) := by
-  cases r with
-  | error e => rfl
-  | ok av => cases av <;> rfl
-
-theorem valsOf_outOf (F : Facts) (rs : List (Except RefErr (AV V))) :
-    valsOf (rs.map (outOf F)) = outOf F (refVals rs) := by
+theorem valsOf_outRun (F : Facts) (rs : List (Run S RefErr (AV V))) :
+    valsOf (rs.map (outRun F)) = outRun F (refVals rs) := by
   unfold valsOf refVals
-  rw [← seqAll_map_outOf]
+  rw [← seqRun_map_outRun]
   simp only [List.map_map]
   congr 1
   apply List.map_congr_left
   intro r _
-  exact asVal_outOf F r
+  exact valOfRun_outRun F r
 
 /-! ### the main induction: replaying the recorded object = applying the chain directly -/
 
@@ -248,23 +261,25 @@ def recStep (F : Facts) (pyNone : V) (s : String × E V) : Option (String × Obj
       | none => none
 
 /-- what the reference semantics feeds to `foldSteps` for one step -/
-def refStep (prim : Prim V) (target : V) (s : String × E V) : Option Kind × Except RefErr (AV V) :=
-  (meaning s.1, if arglessDunders.contains s.1 then .ok (.val prim.none) else refArg prim target s.2)
+def refStep (prim : Prim V S) (target : V) (st : String × E V) :
+    Option Kind × Run S RefErr (AV V) :=
+  (meaning st.1, if arglessDunders.contains st.1 then (fun s => (.ok (.val prim.none), s))
+                 else refArg prim target st.2)
 
-theorem stepsEval_eq_fold (F : Facts) (hwf : WF F = true) (prim : Prim V)
-    (hplain : ∀ t v, prim.reval t v = v) (target : V)
+theorem stepsEval_eq_fold (F : Facts) (hwf : WF F = true) (prim : Prim V S)
+    (hplain : Plain prim) (target : V)
     {steps : List (String × E V)} {cells : List (String × Obj V)}
-    (h2 : All2 (fun s cell => recStep F prim.none s = some cell) steps cells)
-    (ih : ∀ s ∈ steps, ∀ o, record F prim.none s.2 = some o →
-        argVal F prim target o = outOf F (refArg prim target s.2)) :
-    ∀ (k : Nat) (cur : V),
-      stepsEval F prim target (argVal F prim target) cells k cur =
-        outOf F (foldSteps prim (steps.map (refStep prim target)) k cur) := by
+    (h2 : All2 (fun st cell => recStep F prim.none st = some cell) steps cells)
+    (ih : ∀ st ∈ steps, ∀ o, record F prim.none st.2 = some o →
+        argVal F prim target o = outRun F (refArg prim target st.2)) :
+    ∀ (k : Nat) (s : S) (cur : V),
+      stepsEval F prim target (argVal F prim target) cells k s cur =
+        outS F (foldSteps prim (steps.map (refStep prim target)) k s cur) := by
   induction h2 with
-  | nil => intro k cur; rfl
-  | @cons s cell steps cells hs _ ih2 =>
-    intro k cur
-    obtain ⟨d, a⟩ := s
+  | nil => intro k s cur; rfl
+  | @cons st cell steps cells hs _ ih2 =>
+    intro k s cur
+    obtain ⟨d, a⟩ := st
     obtain ⟨c, ao⟩ := cell
     simp only [recStep] at hs
     cases hc : charOf F d with
@@ -273,7 +288,7 @@ theorem stepsEval_eq_fold (F : Facts) (hwf : WF F = true) (prim : Prim V)
       rw [hc] at hs
       simp only at hs
       obtain ⟨kind, ks, caught, hm, hd, hk, hcg⟩ := recorded_wf hwf hc
-      have hav : argVal F prim target ao = outOf F (refStep prim target (d, a)).2 := by
+      have hav : argVal F prim target ao = outRun F (refStep prim target (d, a)).2 := by
         simp only [refStep]
         split at hs
         · rename_i hargless
@@ -300,19 +315,23 @@ theorem stepsEval_eq_fold (F : Facts) (hwf : WF F = true) (prim : Prim V)
       simp only [stepsEval, List.map_cons, foldSteps, hav]
       have hfst : (refStep prim target (d, a)).1 = some kind := by simp [refStep, hm]
       rw [hfst]
-      cases hra : (refStep prim target (d, a)).2 with
-      | error e => rfl
-      | ok av =>
-        simp only [outOf]
-        rw [applyBranch_eq F prim hplain target k c' cur av kind ks caught hd hk hcg]
-        cases hp : pyApply prim kind cur av with
-        | none => rfl
-        | some r =>
-          cases r with
-          | error e => rfl
-          | ok v =>
-            simp only [stepOut]
-            exact ih2 (fun s hs => ih s (by simp [hs])) (k + 1) v
+      simp only [outRun, outS]
+      cases hra : (refStep prim target (d, a)).2 s with
+      | mk x s1 =>
+        cases x with
+        | error e => rfl
+        | ok av =>
+          simp only [outOf]
+          rw [applyBranch_eq F prim hplain target k c' s1 cur av kind ks caught hd hk hcg]
+          cases hp : pyApply prim kind s1 cur av with
+          | none => rfl
+          | some r =>
+            obtain ⟨r, s2⟩ := r
+            cases r with
+            | error e => rfl
+            | ok v =>
+              simp only [stepOut]
+              exact ih2 (fun st hst => ih st (by simp [hst])) (k + 1) s2 v
 
 theorem record_texpr (F : Facts) (pyNone : V) (steps : List (String × E V)) :
     record F pyNone (.texpr steps) =
@@ -321,41 +340,85 @@ theorem record_texpr (F : Facts) (pyNone : V) (steps : List (String × E V)) :
       | none => none := by
   rw [record]; rfl
 
-theorem refArg_texpr (prim : Prim V) (target : V) (steps : List (String × E V)) :
-    refArg prim target (.texpr steps) =
-      match foldSteps prim (steps.map (refStep prim target)) 0 target with
-      | .ok v => .ok (.val v)
-      | .error e => .error e := by
+theorem refArg_texpr (prim : Prim V S) (target : V) (steps : List (String × E V)) (s : S) :
+    refArg prim target (.texpr steps) s =
+      match foldSteps prim (steps.map (refStep prim target)) 0 s target with
+      | (.ok v, s1) => (.ok (.val v), s1)
+      | (.error e, s1) => (.error e, s1) := by
   rw [refArg]; rfl
 
-theorem refEval_texpr (prim : Prim V) (target : V) (steps : List (String × E V)) :
-    refEval prim (.texpr steps) target =
-      foldSteps prim (steps.map (refStep prim target)) 0 target := by
+theorem refEval_texpr (prim : Prim V S) (target : V) (steps : List (String × E V)) (s : S) :
+    refEval prim (.texpr steps) target s =
+      foldSteps prim (steps.map (refStep prim target)) 0 s target := by
   unfold refEval
   rw [refArg_texpr]
-  cases foldSteps prim (steps.map (refStep prim target)) 0 target <;> rfl
+  cases h : foldSteps prim (steps.map (refStep prim target)) 0 s target with
+  | mk x s1 => cases x <;> rfl
 
-theorem argVal_tt_T (F : Facts) (prim : Prim V) (target : V) (cells : List (String × Obj V)) :
-    argVal F prim target (.tt (.root "T" :: flatOfCells cells)) =
-      match stepsEval F prim target (argVal F prim target) cells 0 target with
-      | .ok v => .ok (.val v)
-      | .error e => .error e := by
+theorem argVal_tt_T (F : Facts) (prim : Prim V S) (target : V) (cells : List (String × Obj V))
+    (s : S) :
+    argVal F prim target (.tt (.root "T" :: flatOfCells cells)) s =
+      match stepsEval F prim target (argVal F prim target) cells 0 s target with
+      | (.ok v, s1) => (.ok (.val v), s1)
+      | (.error e, s1) => (.error e, s1) := by
   rw [argVal]
   simp only [tRun]
-  have := tLoop_eq_steps F prim target (argVal F prim target) (.root "T") cells [] target
+  have := tLoop_eq_steps F prim target (argVal F prim target) (.root "T") cells [] s target
   simp only [List.nil_append, List.length_nil, Nat.mul_zero, Nat.add_zero] at this
   rw [this]
   rfl
 
-theorem kwOfRes_outOf (F : Facts) (k : String) (r : Except RefErr (AV V)) :
-    kwOfRes k (outOf F r) = outOf F (refKw k r) := by
-  cases r with
-  | error e => rfl
-  | ok av => cases av <;> rfl
+theorem argVal_lit (F : Facts) (prim : Prim V S) (target : V) (v : V) (s : S) :
+    argVal F prim target (.lit v) s = (.ok (.val v), s) := by
+  rw [argVal]
 
-theorem pairUp_outOf (F : Facts) {α β} (a : Except RefErr α) (b : Except RefErr β) :
-    pairUp (outOf F a) (outOf F b) = outOf F (pairUp a b) := by
-  cases a <;> cases b <;> rfl
+theorem argVal_cargs (F : Facts) (prim : Prim V S) (target : V) (args : List (Obj V))
+    (kwargs : List (String × Obj V)) (s : S) :
+    argVal F prim target (.cargs args kwargs) s =
+      match valsOf (args.map (fun a => argVal F prim target a)) s with
+      | (.error e, s1) => (.error e, s1)
+      | (.ok as, s1) =>
+        match seqRun (kwargs.map (fun p => kwOfRun p.1 (argVal F prim target p.2))) s1 with
+        | (.ok ks, s2) => (.ok (.call as ks), s2)
+        | (.error e, s2) => (.error e, s2) := by
+  rw [argVal]
+  rfl
+
+theorem kwOfRun_outRun (F : Facts) (k : String) (f : Run S RefErr (AV V)) :
+    kwOfRun k (outRun F f) = outRun F (refKwRun k f) := by
+  funext s
+  simp only [kwOfRun, outRun, outS, refKwRun]
+  cases hr : f s with
+  | mk x s1 =>
+    cases x with
+    | error e => rfl
+    | ok av => cases av <;> rfl
+
+theorem pairRun_outRun (F : Facts) {α β} (a : Run S RefErr α) (b : Run S RefErr β) :
+    pairRun (outRun F a) (outRun F b) = outRun F (pairRun a b) := by
+  funext s
+  simp only [pairRun, outRun, outS]
+  cases ha : a s with
+  | mk x s1 =>
+    cases x with
+    | error e => rfl
+    | ok xa =>
+      simp only [outOf]
+      cases hb : b s1 with
+      | mk y s2 => cases y <;> rfl
+
+theorem entryRun_outRun (F : Facts) (prim : Prim V S) (a b : Run S RefErr V) :
+    entryRun prim (outRun F a) (outRun F b) = outRun F (refEntryRun prim a b) := by
+  funext s
+  simp only [entryRun, pairRun_outRun]
+  simp only [outRun, outS, refEntryRun]
+  cases hp : pairRun a b s with
+  | mk x s1 =>
+    cases x with
+    | error e => rfl
+    | ok kv =>
+      simp only [outOf]
+      cases hh : (prim.hashKey s1 kv.1).1 <;> rfl
 
 /-- `record` never turns anything but a `T` expression into a `TType` object -/
 theorem record_tt_inv (F : Facts) (pyNone : V) (e : E V) (ops : List (Obj V))
@@ -377,22 +440,24 @@ theorem record_tt_inv (F : Facts) (pyNone : V) (e : E V) (ops : List (Obj V))
     rw [record] at h
     split at h <;> cases h
 
-theorem argVal_spec_nontt (F : Facts) (prim : Prim V) (target : V) (o : Obj V)
-    (h : ∀ ops, o ≠ .tt ops) : argVal F prim target (.spec o) = .error .unsupported := by
+theorem argVal_spec_nontt (F : Facts) (prim : Prim V S) (target : V) (o : Obj V)
+    (h : ∀ ops, o ≠ .tt ops) :
+    argVal F prim target (.spec o) = fun s => (.error .unsupported, s) := by
   cases o with
   | tt ops => exact absurd rfl (h ops)
   | _ => rw [argVal] <;> simp
 
-theorem refArg_spec_nontexpr (prim : Prim V) (target : V) (e : E V)
-    (h : ∀ steps, e ≠ .texpr steps) : refArg prim target (.spec e) = .error .unsupported := by
+theorem refArg_spec_nontexpr (prim : Prim V S) (target : V) (e : E V)
+    (h : ∀ steps, e ≠ .texpr steps) :
+    refArg prim target (.spec e) = fun s => (.error .unsupported, s) := by
   cases e with
   | texpr steps => exact absurd rfl (h steps)
   | _ => rw [refArg] <;> simp
 
-theorem argVal_record (F : Facts) (hwf : WF F = true) (prim : Prim V)
-    (hplain : ∀ t v, prim.reval t v = v) (target : V) :
+theorem argVal_record (F : Facts) (hwf : WF F = true) (prim : Prim V S)
+    (hplain : Plain prim) (target : V) :
     ∀ (e : E V) (o : Obj V), record F prim.none e = some o →
-      argVal F prim target o = outOf F (refArg prim target e) := by
+      argVal F prim target o = outRun F (refArg prim target e) := by
   intro e
   induction e using E.induct with
   | lit v =>
@@ -407,9 +472,12 @@ theorem argVal_record (F : Facts) (hwf : WF F = true) (prim : Prim V)
     | some cells =>
       rw [hc] at h
       simp only [Option.some.injEq] at h; subst h
+      funext s
+      simp only [outRun]
       rw [argVal_tt_T, refArg_texpr,
-        stepsEval_eq_fold F hwf prim hplain target (allSome_forall2 _ _ _ hc) ih 0 target]
-      cases foldSteps prim (steps.map (refStep prim target)) 0 target <;> rfl
+        stepsEval_eq_fold F hwf prim hplain target (allSome_forall2 _ _ _ hc) ih 0 s target]
+      cases hq : foldSteps prim (steps.map (refStep prim target)) 0 s target with
+      | mk x s1 => cases x <;> rfl
   | spec e ih =>
     intro o h
     rw [record] at h
@@ -440,12 +508,15 @@ theorem argVal_record (F : Facts) (hwf : WF F = true) (prim : Prim V)
     | some os =>
       rw [hc] at h; simp only [Option.map_some, Option.some.injEq] at h; subst h
       have hmap := map_eq_of_forall2 (g := fun a => argVal F prim target a)
-        (h := fun x => outOf F (refArg prim target x)) (allSome_forall2 _ _ _ hc)
+        (h := fun x => outRun F (refArg prim target x)) (allSome_forall2 _ _ _ hc)
         (fun x hx y hxy => ih x hx y hxy)
-      have hmm : xs.map (fun x => outOf F (refArg prim target x)) =
-          (xs.map (fun x => refArg prim target x)).map (outOf F) := by rw [List.map_map]; rfl
-      rw [argVal, refArg, hmap, hmm, valsOf_outOf]
-      cases refVals (xs.map (fun x => refArg prim target x)) <;> rfl
+      have hmm : xs.map (fun x => outRun F (refArg prim target x)) =
+          (xs.map (fun x => refArg prim target x)).map (outRun F) := by rw [List.map_map]; rfl
+      funext s
+      rw [argVal, refArg, hmap, hmm, valsOf_outRun]
+      simp only [outRun, outS]
+      cases hq : refVals (xs.map (fun x => refArg prim target x)) s with
+      | mk x s1 => cases x <;> rfl
   | tuple xs ih =>
     intro o h
     rw [record] at h
@@ -454,21 +525,24 @@ theorem argVal_record (F : Facts) (hwf : WF F = true) (prim : Prim V)
     | some os =>
       rw [hc] at h; simp only [Option.map_some, Option.some.injEq] at h; subst h
       have hmap := map_eq_of_forall2 (g := fun a => argVal F prim target a)
-        (h := fun x => outOf F (refArg prim target x)) (allSome_forall2 _ _ _ hc)
+        (h := fun x => outRun F (refArg prim target x)) (allSome_forall2 _ _ _ hc)
         (fun x hx y hxy => ih x hx y hxy)
-      have hmm : xs.map (fun x => outOf F (refArg prim target x)) =
-          (xs.map (fun x => refArg prim target x)).map (outOf F) := by rw [List.map_map]; rfl
-      rw [argVal, refArg, hmap, hmm, valsOf_outOf]
-      cases refVals (xs.map (fun x => refArg prim target x)) <;> rfl
+      have hmm : xs.map (fun x => outRun F (refArg prim target x)) =
+          (xs.map (fun x => refArg prim target x)).map (outRun F) := by rw [List.map_map]; rfl
+      funext s
+      rw [argVal, refArg, hmap, hmm, valsOf_outRun]
+      simp only [outRun, outS]
+      cases hq : refVals (xs.map (fun x => refArg prim target x)) s with
+      | mk x s1 => cases x <;> rfl
   | dict es ih =>
     intro o h
     rw [record] at h
     obtain ⟨os, hc, rfl⟩ := Option.map_eq_some_iff.mp h
     have hmap := map_eq_of_forall2
       (g := fun (p : Obj V × Obj V) =>
-        pairUp (valOfRes (argVal F prim target p.1)) (valOfRes (argVal F prim target p.2)))
-      (h := fun (p : E V × E V) => outOf F
-        (pairUp (refVal1 (refArg prim target p.1)) (refVal1 (refArg prim target p.2))))
+        entryRun prim (valOfRun (argVal F prim target p.1)) (valOfRun (argVal F prim target p.2)))
+      (h := fun (p : E V × E V) => outRun F
+        (refEntryRun prim (refValRun (refArg prim target p.1)) (refValRun (refArg prim target p.2))))
       (allSome_forall2 _ _ _ hc)
       (fun p hp q hpq => by
         simp only [pairOpt] at hpq
@@ -476,20 +550,25 @@ theorem argVal_record (F : Facts) (hwf : WF F = true) (prim : Prim V)
         · rename_i a b ha hb
           simp only [Option.some.injEq] at hpq; subst hpq
           simp only
-          rw [(ih p hp).1 a ha, (ih p hp).2 b hb, asVal_outOf, asVal_outOf, pairUp_outOf]
+          rw [(ih p hp).1 a ha, (ih p hp).2 b hb, valOfRun_outRun, valOfRun_outRun,
+            entryRun_outRun]
         · cases hpq)
-    have hmm : es.map (fun (p : E V × E V) => outOf F
-          (pairUp (refVal1 (refArg prim target p.1)) (refVal1 (refArg prim target p.2)))) =
+    have hmm : es.map (fun (p : E V × E V) => outRun F
+          (refEntryRun prim (refValRun (refArg prim target p.1)) (refValRun (refArg prim target p.2)))) =
         (es.map (fun (p : E V × E V) =>
-          pairUp (refVal1 (refArg prim target p.1)) (refVal1 (refArg prim target p.2)))).map
-          (outOf F) := by rw [List.map_map]; rfl
-    rw [argVal, refArg, hmap, hmm, seqAll_map_outOf]
-    cases seqAll (es.map (fun p =>
-      pairUp (refVal1 (refArg prim target p.1)) (refVal1 (refArg prim target p.2)))) with
-    | error e => rfl
-    | ok kvs =>
-      simp only [outOf]
-      cases prim.mkDict kvs <;> rfl
+          refEntryRun prim (refValRun (refArg prim target p.1)) (refValRun (refArg prim target p.2)))).map
+          (outRun F) := by rw [List.map_map]; rfl
+    funext s
+    rw [argVal, refArg, hmap, hmm, seqRun_map_outRun]
+    simp only [outRun, outS]
+    cases hq : seqRun (es.map (fun p =>
+      refEntryRun prim (refValRun (refArg prim target p.1)) (refValRun (refArg prim target p.2)))) s with
+    | mk x s1 =>
+      cases x with
+      | error e => rfl
+      | ok kvs =>
+        simp only [outOf]
+        cases hm : (prim.mkDict s1 kvs).1 <;> rfl
   | cargs args kwargs iha ihk =>
     intro o h
     rw [record] at h
@@ -497,28 +576,34 @@ theorem argVal_record (F : Facts) (hwf : WF F = true) (prim : Prim V)
     · rename_i as ks hca hck
       simp only [Option.some.injEq] at h; subst h
       have hmapa := map_eq_of_forall2 (g := fun a => argVal F prim target a)
-        (h := fun x => outOf F (refArg prim target x)) (allSome_forall2 _ _ _ hca)
+        (h := fun x => outRun F (refArg prim target x)) (allSome_forall2 _ _ _ hca)
         (fun x hx y hxy => iha x hx y hxy)
       have hmapk := map_eq_of_forall2
-        (g := fun (p : String × Obj V) => kwOfRes p.1 (argVal F prim target p.2))
-        (h := fun (p : String × E V) => outOf F (refKw p.1 (refArg prim target p.2)))
+        (g := fun (p : String × Obj V) => kwOfRun p.1 (argVal F prim target p.2))
+        (h := fun (p : String × E V) => outRun F (refKwRun p.1 (refArg prim target p.2)))
         (allSome_forall2 _ _ _ hck)
         (fun p hp q hpq => by
           simp only [Option.map_eq_some_iff] at hpq
           obtain ⟨a, ha, rfl⟩ := hpq
           simp only
-          rw [ihk p hp a ha, kwOfRes_outOf])
-      have hmma : args.map (fun x => outOf F (refArg prim target x)) =
-          (args.map (fun x => refArg prim target x)).map (outOf F) := by rw [List.map_map]; rfl
-      have hmmk : kwargs.map (fun (p : String × E V) => outOf F (refKw p.1 (refArg prim target p.2))) =
-          (kwargs.map (fun (p : String × E V) => refKw p.1 (refArg prim target p.2))).map
-            (outOf F) := by rw [List.map_map]; rfl
-      rw [argVal, refArg, hmapa, hmapk, hmma, valsOf_outOf, hmmk, seqAll_map_outOf]
-      cases refVals (args.map (fun x => refArg prim target x)) with
-      | error e => rfl
-      | ok vs =>
-        simp only [outOf]
-        cases seqAll (kwargs.map (fun p => refKw p.1 (refArg prim target p.2))) <;> rfl
+          rw [ihk p hp a ha, kwOfRun_outRun])
+      have hmma : args.map (fun x => outRun F (refArg prim target x)) =
+          (args.map (fun x => refArg prim target x)).map (outRun F) := by rw [List.map_map]; rfl
+      have hmmk : kwargs.map (fun (p : String × E V) =>
+            outRun F (refKwRun p.1 (refArg prim target p.2))) =
+          (kwargs.map (fun (p : String × E V) => refKwRun p.1 (refArg prim target p.2))).map
+            (outRun F) := by rw [List.map_map]; rfl
+      funext s
+      rw [argVal, refArg, hmapa, hmapk, hmma, valsOf_outRun, hmmk, seqRun_map_outRun]
+      simp only [outRun, outS]
+      cases hq : refVals (args.map (fun x => refArg prim target x)) s with
+      | mk x s1 =>
+        cases x with
+        | error e => rfl
+        | ok vs =>
+          simp only [outOf]
+          cases hq2 : seqRun (kwargs.map (fun p => refKwRun p.1 (refArg prim target p.2))) s1 with
+          | mk y s2 => cases y <;> rfl
     · cases h
 
 /-! ### consequences of `kindsOk` -/
@@ -557,29 +642,33 @@ theorem errOf_opFail {F : Facts} (hwf : WF F = true) (k : Nat) (kind : Kind) (e 
     simp only [errOf, hcall hc, caughtBy, List.any_nil]
     rfl
 
-theorem foldSteps_append (prim : Prim V) (l1 l2 : List (Option Kind × Except RefErr (AV V))) :
-    ∀ (k : Nat) (cur : V), foldSteps prim (l1 ++ l2) k cur =
-      match foldSteps prim l1 k cur with
-      | .error e => .error e
-      | .ok v => foldSteps prim l2 (k + l1.length) v := by
+theorem foldSteps_append (prim : Prim V S)
+    (l1 l2 : List (Option Kind × Run S RefErr (AV V))) :
+    ∀ (k : Nat) (s : S) (cur : V), foldSteps prim (l1 ++ l2) k s cur =
+      match foldSteps prim l1 k s cur with
+      | (.error e, s1) => (.error e, s1)
+      | (.ok v, s1) => foldSteps prim l2 (k + l1.length) s1 v := by
   induction l1 with
-  | nil => intro k cur; simp [foldSteps]
-  | cons s r ih =>
-    intro k cur
-    obtain ⟨kd, ra⟩ := s
+  | nil => intro k s cur; simp [foldSteps]
+  | cons st r ih =>
+    intro k s cur
+    obtain ⟨kd, ra⟩ := st
     simp only [List.cons_append, foldSteps, List.length_cons]
-    cases ra with
-    | error e => rfl
-    | ok av =>
-      cases kd with
-      | none => rfl
-      | some kind =>
-        simp only
-        cases pyApply prim kind cur av with
+    cases hra : ra s with
+    | mk x s1 =>
+      cases x with
+      | error e => rfl
+      | ok av =>
+        cases kd with
         | none => rfl
-        | some r' =>
-          cases r' with
-          | error e => rfl
-          | ok v => simp only; rw [ih]; rw [show k + 1 + r.length = k + (r.length + 1) by omega]
+        | some kind =>
+          simp only
+          cases hp : pyApply prim kind s1 cur av with
+          | none => rfl
+          | some r' =>
+            obtain ⟨r', s2⟩ := r'
+            cases r' with
+            | error e => rfl
+            | ok v => simp only; rw [ih]; rw [show k + 1 + r.length = k + (r.length + 1) by omega]
 
 end Glom.C02
